@@ -30,6 +30,15 @@ def budget(tier):
 
 def generate(seed, tier):
     st = Streams(seed)
+    if st.prog.random() < 0.3:
+        # composite programs (object trees, lists with foreach / aggregates, solve_order + dist):
+        # judged by reference evaluation of the returned tree
+        prog, g, top, kind = scen.mixed_program(st, True)
+        n_parties = st.ops.choice([1, 1, 2])
+        n_ops = st.ops.randint(6, 20 if tier == "quick" else 40)
+        ops = scen.history_ops(st, prog, g, n_parties, n_ops, cname=top)
+        return {"prop": ID, "seed": seed, "prog": prog, "ops": ops, "small": False, "kind": kind,
+                "probe_seed": st.fault.randint(0, 1 << 30)}
     small = st.prog.random() < 0.55
     prog, g, cfg = scen.flat_program(st, small)
     n_parties = st.ops.choice([1, 1, 2, 3])
@@ -107,6 +116,7 @@ def execute(rec):
     obs = []
     sol_cache = {}
     nontrivial = False
+    stats["kind_" + rec.get("kind", "flat")] = 1
     for oi, op in enumerate(rec["ops"]):
         if "p" in op and op["p"] >= len(w.parties):
             continue
